@@ -238,6 +238,25 @@ def run(ck, m):
                 ck.ob("L4", r.ast, p is None,
                       f"there is a path to the wrapped Process.start() on which `self.{attr}` was never assigned: the child would fail in "
                       f"_process_run_wrapper / run unsynchronised", stmt=f"_process_start_wrapper: self.{attr} assigned before start")
+    # what the child is handed IS the lock / cache the parent goes on using: every store to self._tty_lock / self._cell_size_cache binds the module global
+    # of the same name (directly, chained with the rebinding of the global, or through a local that is also stored into the global); the only other
+    # value is the "not supported on this platform" None inside an exception handler
+    for attr in ("_tty_lock", "_cell_size_cache"):
+        glob_vals = {norm(trace(start, st.value, use=st)) for t, st in stores_in(ast.Module(body=start.body, type_ignores=[]))
+                     if isinstance(t, ast.Name) and t.id == attr and getattr(st, "value", None) is not None}
+        glob_srcs = {norm(st.value) for t, st in stores_in(ast.Module(body=start.body, type_ignores=[])) if isinstance(t, ast.Name) and t.id == attr and getattr(st, "value", None) is not None}
+        for t, st in stores_in(ast.Module(body=start.body, type_ignores=[])):
+            if not (isinstance(t, ast.Attribute) and t.attr == attr and isinstance(t.value, ast.Name) and t.value.id == "self" and getattr(st, "value", None) is not None):
+                continue
+            if any(isinstance(a, ast.ExceptHandler) for a in _anc(st)) and isinstance(st.value, ast.Constant) and st.value.value is None:
+                continue
+            chained = isinstance(st, ast.Assign) and any(isinstance(x, ast.Name) and x.id == attr for x in st.targets)
+            v_ = norm(st.value)
+            tv_ = norm(trace(start, st.value, use=st))
+            ok_ = chained or v_ == attr or tv_ == attr or v_ in glob_srcs or (tv_ in glob_vals and not isinstance(st.value, ast.Constant))
+            ck.ob("L4", st, ok_, f"`{short(st, 60)}`: the child process must be handed the very lock / cache the parent uses from now on (the global `{attr}`); any other value - None on some "
+                  f"condition, a second new lock - leaves the child unsynchronised with its parent for its whole life (the hand-over happens once, at start)",
+                  stmt=f"_process_start_wrapper: `{short(st, 50)}` hands over the global {attr}")
     runw = m.get(U, "_process_run_wrapper")
     rets = [s for s in runw.body if isinstance(s, ast.Return)]
     for lk, src in (("_tty_lock", "self._tty_lock"), ("_cell_size_cache", "self._cell_size_cache")):
